@@ -27,8 +27,10 @@ def make_replay(chk, v, meth, lib, ref, callback):
         api = pde.api_name(meth)
         lines = ['masa_init<Scalar>("h","%s");' % v.name]
         envs = []
-        for k in range(3):
+        for k in range(4):
             env = pde.rand_env(rng, names, ['x'])
+            if k == 3:
+                env['x'] = envs[2]['x']     # same point, other parameters: a value remembered per point would show
             envs.append(env)
             for n in names:
                 lines.append('masa_set_param<Scalar>("%s",%s);' % (n, rp.lit(env[n], v.scalar)))
@@ -41,13 +43,16 @@ def make_replay(chk, v, meth, lib, ref, callback):
         for k, env in enumerate(envs):
             e = {n: rp.mp.mpf(q.numerator) / rp.mp.mpf(q.denominator) for n, q in env.items()}
             rv = tm.evalf([ref], e, rp.mp, ufs)[0]
-            lv = tm.evalf([lib], e, rp.mp, ufs)[0]
+            try:
+                lv = tm.evalf([lib], e, rp.mp, ufs)[0]
+            except KeyError:
+                lv = None           # the library term mentions remembered state no API call sets
             got = res.get('p%d' % k)
             if got is None or not rp.mp.isfinite(got) or not rp.mp.isfinite(rv):
                 continue
-            M = abs(rv) + abs(lv) + pde.magnitude_uf(ref, e, ufs)
+            M = abs(rv) + abs(lv or 0) + pde.magnitude_uf(ref, e, ufs)
             chk.validation['points'] += 1
-            if abs(got - lv) > rp.mp.mpf('1e-9') * M:
+            if lv is not None and abs(got - lv) > rp.mp.mpf('1e-9') * M:
                 chk.validation['mismatches'] += 1
                 chk.infra.append('ENCODING MISMATCH %s %s: term=%s library=%s' % (v.name, meth, rp.mp.nstr(lv, 20), rp.mp.nstr(got, 20)))
             if abs(got - rv) > rp.mp.mpf('1e-6') * M:
